@@ -1,9 +1,21 @@
-(* C03 - concurrent operations are serializable (lock level, Model L).
-   Proved: lock discipline of all operations other than two-qubit gates (mutual exclusion, owner-only release) and finiteness.
-   Refuted: the timeout branch of _lock_nodes releases locks held by another operation (D6); mutual exclusion fails.
-   The full data-level statement (two_phase_serializable, see Conc/Serial.v) is NOT proved: model L carries no bookkeeping. *)
+(* C03 - concurrent operations are serializable.
+   Proved, lock level (Model L, tied to the code by trace acceptance): lock discipline of all operations other than two-qubit
+     gates (mutual exclusion, owner-only release), finiteness; every accepted run of such a configuration is a legal,
+     two-phase lock schedule (C03_disciplined_runs_legal / _two_phase).
+   Proved, data level, GENERICALLY (Conc/TwoPhase.v): two-phase locking implies serializability - for abstract node data D,
+     per-operation local state L and any deterministic access function, the final store and every operation's local state
+     (its outcome) after a legal, covered, two-phase schedule are those of the serial schedule in lock-point order
+     (C03_two_phase_locking_serializable), that order respects real-time precedence (C03_lock_order_respects_real_time), and
+     the hypotheses are needed (C03_*_needed).  C03_disciplined_runs_serializable joins the two: ANY covered placement of
+     accesses inside a lock trace accepted by model L is serializable in the order computed from the trace alone.
+   NOT proved, and not checked by the tie: that the operations of virtual.py ARE such access sequences - that they touch a
+     node's bookkeeping only while holding that node's lock and depend on nothing else (coverage of the footprint).  This
+     is an assumption about the code; it is known to fail for the `active` test (D23), and for merges it is only tested:
+     harness/props/concprop.py compares every clean two-phase run with the sequential run in lock-point order
+     (evidence counters lockpoint_order_matches / other_order_matches, notes/C03.md).
+   Refuted: the timeout branch of _lock_nodes releases locks held by another operation (D6); mutual exclusion fails. *)
 From Coq Require Import List Bool Arith.
-From SQ Require Import Base.ListUtil Conc.Model Conc.Own Conc.Deadlock Conc.Serial Conc.Orphan.
+From SQ Require Import Base.ListUtil Conc.Model Conc.Own Conc.Deadlock Conc.Serial Conc.Orphan Conc.TwoPhase.
 Import ListNotations.
 
 (* critical sections on one node never overlap *)
@@ -46,3 +58,118 @@ Theorem C03_foreign_release :
     critical s 0 0 = true /\ lock_of s 0 = Some (0, false).
 Proof. exact foreign_release_lemma. Qed.
 Print Assumptions C03_foreign_release.
+
+(* ---- data level: two-phase locking implies serializability (generic; Conc/TwoPhase.v) ---- *)
+
+(* final store and all local states (outcomes) of a legal, covered, two-phase schedule = those of the serial schedule that
+   runs the operations' own event sequences one after the other in lock-point order *)
+Theorem C03_two_phase_locking_serializable :
+  forall (D L : Type) (acc : opid -> nid -> L -> D -> L * D) (s : list event) (st : state D L),
+  legal free s -> covered free s -> two_phase s ->
+  (forall n, sd (exec D L acc s st) n = sd (exec D L acc (serial s) st) n) /\
+  (forall o, sl (exec D L acc s st) o = sl (exec D L acc (serial s) st) o).
+Proof. exact two_phase_serializable. Qed.
+Print Assumptions C03_two_phase_locking_serializable.
+
+(* the serial schedule is the sequential execution: operation after operation in lock-point order *)
+Theorem C03_serial_is_sequential :
+  forall (D L : Type) (acc : opid -> nid -> L -> D -> L * D) (s : list event) (st : state D L),
+  exec D L acc (serial s) st = fold_left (fun st o => exec D L acc (proj o s) st) (lock_order s) st.
+Proof. exact serial_is_sequential. Qed.
+Print Assumptions C03_serial_is_sequential.
+
+(* the lock-point order respects real time: all events of o1 before all events of o2 => o1 first *)
+Theorem C03_lock_order_respects_real_time : forall a b o1 o2,
+  ~ occurs o2 a -> ~ occurs o1 b ->
+  In o1 (lock_order (a ++ b)) -> In o2 (lock_order (a ++ b)) ->
+  exists l1 l2 l3, lock_order (a ++ b) = l1 ++ o1 :: l2 ++ o2 :: l3.
+Proof. exact lock_order_real_time. Qed.
+Print Assumptions C03_lock_order_respects_real_time.
+
+(* the 2PL core: the operation with the earliest lock point can be moved to the front *)
+Theorem C03_lock_point_first_moves_to_front : forall s o rest,
+  legal free s -> covered free s -> two_phase s -> lock_order s = o :: rest -> front_ok o s.
+Proof. exact lock_point_first_front_ok. Qed.
+Print Assumptions C03_lock_point_first_moves_to_front.
+
+(* non-vacuity: an interleaved schedule of three operations satisfying the hypotheses, and its serial form *)
+Theorem C03_two_phase_example :
+  legal free ex_sched /\ covered free ex_sched /\ two_phase ex_sched /\
+  lock_order ex_sched = [2; 0; 1] /\ serial ex_sched <> ex_sched /\
+  serial ex_sched =
+    [Lk 2 2; Ac 2 2; Ac 2 2; Ul 2 2] ++ [Lk 0 0; Ac 0 0; Lk 0 1; Ul 0 0; Ac 0 1; Ul 0 1] ++
+    [Lk 1 0; Ac 1 0; Lk 1 1; Ac 1 1; Ul 1 0; Ul 1 1] /\
+  ex_view (exec _ _ ex_acc ex_sched ex_init) = ([4; 4; 21], [[1; 1]; [2; 2]; [1; 11]]) /\
+  ex_view (exec _ _ ex_acc (serial ex_sched) ex_init) = ([4; 4; 21], [[1; 1]; [2; 2]; [1; 11]]).
+Proof. exact ex_sched_ok. Qed.
+Print Assumptions C03_two_phase_example.
+
+(* each hypothesis is needed: without it a schedule whose result is that of NO sequential order *)
+Theorem C03_two_phase_needed :
+  legal free ex_not_2pl /\ covered free ex_not_2pl /\ ~ two_phase ex_not_2pl /\
+  sd (exec _ _ ex_acc ex_not_2pl ex_init) 0 = 5 /\
+  sd (exec _ _ ex_acc (serial ex_not_2pl) ex_init) 0 = 4 /\
+  sd (exec _ _ ex_acc (proj 0 ex_not_2pl ++ proj 1 ex_not_2pl) ex_init) 0 = 6 /\
+  sd (exec _ _ ex_acc (proj 1 ex_not_2pl ++ proj 0 ex_not_2pl) ex_init) 0 = 4.
+Proof. exact two_phase_needed. Qed.
+Print Assumptions C03_two_phase_needed.
+
+Theorem C03_coverage_needed :
+  legal free ex_not_covered /\ two_phase ex_not_covered /\ ~ covered free ex_not_covered /\
+  sd (exec _ _ ex_acc ex_not_covered ex_init) 0 = 5 /\
+  sd (exec _ _ ex_acc (serial ex_not_covered) ex_init) 0 = 3 /\
+  sd (exec _ _ ex_acc (proj 0 ex_not_covered ++ proj 1 ex_not_covered) ex_init) 0 = 6 /\
+  sd (exec _ _ ex_acc (proj 1 ex_not_covered ++ proj 0 ex_not_covered) ex_init) 0 = 4.
+Proof. exact coverage_needed. Qed.
+Print Assumptions C03_coverage_needed.
+
+Theorem C03_exclusive_locks_needed :
+  ~ legal free ex_not_legal /\ two_phase ex_not_legal /\
+  sd (exec _ _ ex_acc ex_not_legal ex_init) 0 = 5 /\
+  sd (exec _ _ ex_acc (proj 0 ex_not_legal ++ proj 1 ex_not_legal) ex_init) 0 = 6 /\
+  sd (exec _ _ ex_acc (proj 1 ex_not_legal ++ proj 0 ex_not_legal) ex_init) 0 = 4.
+Proof. exact legality_needed. Qed.
+Print Assumptions C03_exclusive_locks_needed.
+
+(* ---- model L runs are legal two-phase lock schedules ---- *)
+Theorem C03_disciplined_runs_legal : forall cfg nn tr s,
+  all_disciplined cfg -> run cfg (init nn cfg) tr = Some s -> legal free (sched tr).
+Proof. exact disciplined_legal. Qed.
+Print Assumptions C03_disciplined_runs_legal.
+
+Theorem C03_disciplined_runs_two_phase : forall cfg nn tr s,
+  all_disciplined cfg -> run cfg (init nn cfg) tr = Some s -> two_phase (sched tr).
+Proof. exact disciplined_two_phase. Qed.
+Print Assumptions C03_disciplined_runs_two_phase.
+
+(* the bridge.  s: any schedule with accesses whose lock events are exactly those of an accepted model-L trace.  If its
+   accesses are covered (ASSUMPTION about the code, see header) it is serializable in the order read off the trace. *)
+Theorem C03_disciplined_runs_serializable :
+  forall (D L : Type) (acc : opid -> nid -> L -> D -> L * D) cfg nn tr s0 (s : list event) (st : state D L),
+  all_disciplined cfg -> run cfg (init nn cfg) tr = Some s0 ->
+  locks_of s = sched tr -> covered free s ->
+  lock_order s = lock_order (sched tr) /\
+  (forall n, sd (exec D L acc s st) n = sd (exec D L acc (serial s) st) n) /\
+  (forall o, sl (exec D L acc s st) o = sl (exec D L acc (serial s) st) o).
+Proof. exact disciplined_runs_serializable. Qed.
+Print Assumptions C03_disciplined_runs_serializable.
+
+Theorem C03_disciplined_trace_example :
+  all_disciplined ex_cfg /\ (exists s, run ex_cfg (init 2 ex_cfg) ex_trace = Some s) /\
+  sched ex_trace = [Lk 0 0; Lk 1 1; Ul 1 1; Lk 0 1; Ul 0 1; Ul 0 0; Lk 2 0; Ul 2 0] /\
+  lock_order (sched ex_trace) = [1; 0; 2].
+Proof. exact ex_trace_ok. Qed.
+Print Assumptions C03_disciplined_trace_example.
+
+(* the serial schedule is a rearrangement: every operation keeps exactly its own events in its own order *)
+Theorem C03_serial_keeps_each_operation : forall s o,
+  legal free s -> covered free s -> proj o (serial s) = proj o s.
+Proof. exact serial_keeps_each_operation. Qed.
+Print Assumptions C03_serial_keeps_each_operation.
+
+(* what the harness asks Coq about every recorded lock schedule (harness/twophase.py): the answer it expects means that the
+   schedule is legal and two-phase and that the order it compares with is lock_order *)
+Theorem C03_recorded_schedule_report_sound : forall s order,
+  sched_report s = 1 :: 1 :: order ++ [999] -> legal free s /\ two_phase s /\ lock_order s = order.
+Proof. exact sched_report_sound. Qed.
+Print Assumptions C03_recorded_schedule_report_sound.
